@@ -1,6 +1,8 @@
 """Which families and generated modules decide which property."""
 import fam_text
 import fam_stream
+import fam_hunks
+import fam_dom
 
 _split = fam_text.Split()
 _codec = fam_text.CodecFam()
@@ -14,8 +16,10 @@ _header = fam_stream.HeaderFam()
 _chunk = fam_stream.Chunk()
 _nesting = fam_stream.Nesting()
 _fuzz = fam_stream.Fuzz()
+_hunks = fam_hunks.HunksFam()
+_dom = fam_dom.Dom()
 
-FAMILIES = {f.name: f for f in [_split, _codec, _stream, _calls, _foreign, _truncate, _order, _header, _chunk, _nesting, _fuzz]}
+FAMILIES = {f.name: f for f in [_split, _codec, _stream, _calls, _foreign, _truncate, _order, _header, _chunk, _nesting, _fuzz, _hunks, _dom]}
 
 PROPS = {
     'C16': dict(families=[_split], trusted_base=[
